@@ -123,6 +123,7 @@ def run(rep: Report) -> None:
              "other than interning calls", floor=6)
     rep.rule("R20.3", "no other test-then-write on an intern table outside the constructors (Dimension.define's definition-time "
              "resize is listed)", floor=1)
+    rep.rule("R20.8", "a lock taken with acquire() is released in a finally on every path", floor=1)
     rep.rule("R20.7", "no function assigns a class attribute of the core classes at run time (shared state outside the dict tables)", floor=1)
     rep.rule("R20.6", "self._initialized = True comes after the assignments of the key attributes on every path of __init__ (it is what lets other threads skip __init__)", floor=3)
     rep.rule("R20.5", "in the interning classes' __init__ every attribute an intern key is built from is assigned once on each path (no provisional "
@@ -171,6 +172,38 @@ def run(rep: Report) -> None:
                        f"holding this (already interned) object reads the provisional value - and a thread re-running __init__ on an object "
                        "another thread already uses puts it back - so keys built from it intern a second, bogus object") if again else
                       f"{cls}.__init__ never assigns self.{a}", init.where(again[1] if again else None))
+    # R20.8: a lock taken with acquire() is given back on every exit: release() in a `finally` (or a `with`).  A definition
+    # that is rejected (ValueError) otherwise leaves the lock held, and every other thread that constructs something blocks
+    # inside __init__ with its object already interned - it never obtains the singleton
+    n8 = 0
+    for q, fi8 in sorted(prog.functions.items()):
+        if fi8.module in ("hypothesis", "pytest", "_parser"):
+            continue
+        for c in ast.walk(fi8.node):
+            if not (isinstance(c, ast.Call) and isinstance(c.func, ast.Attribute) and c.func.attr == "acquire"):
+                continue
+            lock = ast.unparse(c.func.value)
+            n8 += 1
+            safe = False
+            host = c
+            while host is not None and host is not fi8.node:
+                host = getattr(host, "_parent", None)
+                if isinstance(host, ast.Try) and any(isinstance(r, ast.Call) and isinstance(r.func, ast.Attribute) and r.func.attr == "release"
+                                                      and ast.unparse(r.func.value) == lock for st in host.finalbody for r in ast.walk(st)):
+                    safe = True
+            if not safe:
+                # acquire() just before a try whose finally releases
+                for t in ast.walk(fi8.node):
+                    if isinstance(t, ast.Try) and t.lineno > c.lineno and any(
+                            isinstance(r, ast.Call) and isinstance(r.func, ast.Attribute) and r.func.attr == "release" and ast.unparse(r.func.value) == lock
+                            for st in t.finalbody for r in ast.walk(st)):
+                        between = [x for x in ast.walk(fi8.node) if isinstance(x, ast.Call) and c.lineno < getattr(x, "lineno", 0) < t.lineno]
+                        safe = not between
+            rep.check("R20.8", f"{q}:{lock}.acquire()", safe,
+                      f"{q} takes `{lock}` with acquire() and releases it outside a `finally`: an exception in between (a rejected definition) leaves the lock "
+                      "held for good, and every other thread blocks in the middle of a construction", fi8.where(c))
+    if n8 == 0:
+        rep.ok("R20.8", "package", note="no explicit acquire(): locks, if any, are used through `with`")
     # R20.7: a class attribute assigned at run time is process-wide state shared by all threads, and two such stores (or a
     # store and the read that goes with it) are never one step: a one-slot memo kept there hands one thread the unit another
     # thread just looked up.  The only shared state the construction and lookup paths may write are the dict tables, through
